@@ -85,9 +85,11 @@ def scenario_projects() -> List[Dict[str, Any]]:
     ], ["PRIVATE:pp.a.K.f", "PRIVATE:pp.a.L", "PRIVATE:**.g"])
     # a class defined twice (superseded 'C 0'), used as a base in between, with a nested class
     add("duplicate-class", [
-        U("dup", "class C:\n    '''first'''\n    def f(self):\n        '''ff'''\n    class Inner:\n        '''in'''\n"
-                 "class D(C):\n    '''d'''\n    def f(self):\n        '''df'''\n"
-                 "class C:\n    '''second'''\n    def g(self):\n        '''gg'''\n"
+        U("dup", "class Base:\n    '''base'''\n    def f(self):\n        '''bf'''\n"
+                 "class C(Base):\n    '''first'''\n    def __init__(self, a):\n        '''init'''\n    def f(self):\n        '''ff'''\n"
+                 "    def g0(self):\n        '''g0'''\n    class Inner:\n        '''in'''\n"
+                 "class D(C):\n    '''d see L{D.g0}'''\n    def f(self):\n        '''df'''\n"
+                 "class C(Base):\n    '''second'''\n    def g(self):\n        '''gg'''\n"
                  "def h(): pass\ndef h():\n    '''h2'''\n"),
     ], [])
     add("duplicate-in-package", [
@@ -101,6 +103,24 @@ def scenario_projects() -> List[Dict[str, Any]]:
                  "class Sub2(Base):\n    '''sub2'''\n    def other(self): pass\n    def meth(self):\n        '''own'''\n"),
     ], [])
     # hidden roots: the only root / one of two
+    # class index: a base that could not be resolved although a class of that name exists (import cycle + re-export)
+    # shares its dict key with that class, which is registered later and overwrites the entry
+    add("class-index-key-collision", [
+        U("ck", "from ck.d import C_r\nclass K:\n    '''k'''\n", True),
+        U("ck.api", "import ck as m_ck\nclass C(m_ck.K):\n    '''c'''\n"),
+        U("ck.d", "from ck.api import C as C_r\n__all__ = ['C_r']\n"),
+    ], [])
+    # a re-exported function keeps the linker (and its page) of the module it was defined in
+    add("reexported-function-context", [
+        U("rx", "'''pkg'''\nfrom ._impl import api\n__all__ = ['api']\n", True),
+        U("rx._impl", "def helper():\n    '''h'''\ndef api(a, b=1):\n    '''see L{helper}'''\n"),
+    ], [])
+    # what is inside a re-exported class keeps the module it was defined in (sidebar), here a hidden one
+    add("moved-class-nested", [
+        U("mv", "'''pkg'''\nfrom ._impl import Outer\n__all__ = ['Outer']\n", True),
+        U("mv._impl", "class Outer:\n    '''o'''\n    class Inner:\n        '''i'''\n        def f(self):\n            '''f'''\n"
+                      "class Stay:\n    '''s'''\n"),
+    ], ["HIDDEN:mv._impl"])
     # (a project whose only root is hidden has no visible object at all: lunr then divides by zero and the run aborts
     #  before anything is written - nothing to crawl; counted as `run-crash` when a random rule list does it)
     add("hidden-one-of-two-roots", [U("r1", "'''one'''\nclass A:\n    '''a'''\n"), U("r2", "'''two'''\nfrom r1 import A\nclass B(A):\n    '''see L{r1}'''\n")],
@@ -450,6 +470,9 @@ def extract_facts(system) -> Dict[str, Any]:
             source = o.parent          # documented by a field of the parent's docstring
         rec["docsource"] = oid(source)
         rec["xrefs"] = xrefs
+        # the page object remembered by the linker that renders this docstring (stale after a re-export)
+        rec["docctx"] = oid(getattr(source.docstring_linker, "_page_object", None)) if source is not None else None
+        rec["module"] = i if isinstance(o, model.Module) else oid(o.parentMod)
         # annotation / signature / decorator / value links (all through link_to)
         ann: List[int] = []
         if isinstance(o, model.Attribute):
@@ -861,7 +884,8 @@ def request_line(facts: Dict[str, Any]) -> str:
             _nl(o["contents"]), "1" if o["hasdoc"] else "0", "-" if o["docsource"] is None else str(o["docsource"]),
             _nl(o["xrefs"]), _nl(o["annrefs"]), _ol(o.get("bases", [])),
             ",".join(enc(b) for b in o.get("basenames", [])) or "-", _nl(o.get("mro", [])), _nl(o.get("subclasses", [])),
-            _ol(o.get("sigrefs", [])), _nl(o.get("ctors", []))]))
+            _ol(o.get("sigrefs", [])), _nl(o.get("ctors", [])),
+            "-" if o.get("docctx") is None else str(o["docctx"]), "-" if o.get("module") is None else str(o["module"])]))
     return "output run %d %d %s %s %s" % (facts["depth"], 1 if facts["nosidebar"] else 0, _nl(facts["roots"]),
                                           _nl(facts["all"]), " ".join(toks))
 
